@@ -124,7 +124,7 @@ theorem ctlInv_flags {st st' : LState τ} (hc : CtlInv st) (hwk : st'.wk.length 
     (h1 : st'.ctl.sched = st.ctl.sched) (h2 : st'.ctl.active = st.ctl.active) (h3 : st'.ctl.nextId = st.ctl.nextId)
     (h4 : st'.ctl.shuttingdown = st.ctl.shuttingdown) (h5 : st'.ctl.shouldstop = st.ctl.shouldstop)
     (hmono : ∀ n, st.ctl.env.flags.shuttingDown n = true → st'.ctl.env.flags.shuttingDown n = true)
-    (hfk : ∀ m ∈ AList.keys st'.ctl.env.flags, m < st.ctl.nextId) : CtlInv st' := by
+    (hfk : ∀ m ∈ AList.keys st'.ctl.env.flags, st.ctl.nextId ≤ m → st'.ctl.env.flags.get m = {}) : CtlInv st' := by
   obtain ⟨c1, c2, c3, c4, c5, c6, c7, c8, c9, c10, c11⟩ := hc
   refine ⟨by rw [hwk, h3]; exact c1, by rw [h2, h3]; exact c2, by rw [h2]; exact c3, by rw [h5, h4]; exact c4, ?_, ?_,
     by rw [h1]; exact c7, by rw [h1]; exact c8, by rw [h1]; exact c9, by rw [h1, h3]; exact c10, by rw [h3]; exact hfk⟩
@@ -177,15 +177,18 @@ theorem crash_inv (idsOf : Nat → List τ) {st st' : LState τ} {k : Nat} {b : 
         by_cases hnk : n = k
         · subst hnk; simpa using hn
         · simpa [hnk] using hn
-      · intro m hm
+      · intro m hm hge
         have hkl : k < st.ctl.nextId := by
           rw [← hinv.1.len]
           rcases Nat.lt_or_ge k st.wk.length with h' | h'
           · exact h'
           · rw [List.getElem?_eq_none h'] at hw; cases hw
+        have hge' : st.ctl.nextId ≤ m := hge
+        have hmk : m ≠ k := by omega
+        simp only [setWk, Contract.flags_get_set, hmk, ↓reduceIte]
         rcases keys_set_mem _ _ _ _ hm with hm | hm
-        · exact base.1.flagsLt m hm
-        · rw [hm]; exact hkl
+        · exact base.1.flagsLt m hm hge
+        · exact absurd hm hmk
     · intro j wj hj
       have hj' : (setWk st k ({ w with alive := false, inbox := [], outbox := w.outbox ++ [.endMarker] } : Wk τ)).wk[j]? = some wj := hj
       have hb := base.wk hj'
